@@ -207,9 +207,18 @@ def api_search(chk, n_cases):
             else:
                 t = oqupy.Tempo(sysm, bath, par, rho0, start, unique=unique)
                 ds = np.array(quiet(t.compute, start + n * dt, progress_type="silent").states)
-            pt = quiet(oqupy.pt_tempo_compute, bath, start, start + n * dt, parameters=par, unique=unique, progress_type="silent")
+            # the process tensor in memory or written directly to a file (every run: the generic complex coupling of it == 2)
+            file_backed = it == 2 or (it > 5 and rng.random() < 0.2)
+            info["process_tensor"] = "file-backed" if file_backed else "memory"
+            pt = quiet(oqupy.pt_tempo_compute, bath, start, start + n * dt, parameters=par, unique=unique,
+                       process_tensor_file=True if file_backed else None, progress_type="silent")
             dp = np.array(quiet(oqupy.compute_dynamics, sysm, initial_state=rho0, process_tensor=pt, start_time=start,
                                 subdiv_limit=None, progress_type="silent").states)
+            if n >= 4:
+                dq_pre = np.array(quiet(oqupy.compute_dynamics, sysm, initial_state=rho0, process_tensor=pt, start_time=start, num_steps=n - 2,
+                                        subdiv_limit=None, progress_type="silent").states)
+            if file_backed:
+                pt.remove()
         except Exception as ex:
             chk.fail("api-raises", f"Tempo / PtTempo raise {ex!r}", info)
             continue
@@ -220,8 +229,7 @@ def api_search(chk, n_cases):
         if err > (2e3 if eps > 1e-10 else 2e2) * eps:
             chk.fail("tempo-vs-pttempo-api", f"Tempo and PtTempo+compute_dynamics differ by {err:.2e} (epsrel {eps})", info)
         if n >= 4:
-            dq = np.array(quiet(oqupy.compute_dynamics, sysm, initial_state=rho0, process_tensor=pt, start_time=start, num_steps=n - 2,
-                                subdiv_limit=None, progress_type="silent").states)
+            dq = dq_pre
             chk.search_cases += 1
             if np.abs(dq - dp[:n - 1]).max() > 2e3 * eps:
                 chk.fail("prefix-differs-api", "the first steps from a longer process tensor differ from the full run", info)
